@@ -31,6 +31,8 @@ RULE = ("documents: jsongen valid texts, byte-mutated texts, texts padded to 409
         "(lseek pread pwrite fstat ftruncate fsync fdatasync dup dup2 fcntl readv writev mmap fdopen posix_fadvise) recorded on every line; "
         "descriptor numbers: lines of every kind re-run with the descriptor number (the scripted open()'s return value and the caller-provided descriptor) "
         "set to 0, 1, 2, 3, 255, 1024, 65536, INT_MAX, plus the enumerated from_file/to_file schedules on descriptors 0 and INT_MAX; "
+        "would-block reads: every schedule of <= 3 (4) transfers over {1,2,all,EAGAIN,EWOULDBLOCK,EINTR} with at least one failing call, through from_fd_ex, from_file "
+        "(scripted and file-system open) and a positioned descriptor; the flags and mode of every open() compared with the documented requests on every line; "
         "failure reports (N): from_file / to_file_ext / to_file on file names with printf metacharacters (%d %s %n %x %% lone % %5$s %*d ...), "
         "names of 150..5000 bytes around the 256-byte message buffer, plain names x open() failing (ENOENT EACCES ENOTDIR EMFILE ENAMETOOLONG ...) "
         "or the first read()/write() failing; "
@@ -133,7 +135,7 @@ def rand_sizes(rng, total, big):
 
 # errno carried by a failing call: the property says "a read/write error", not "an error other
 # than ...": interruptions and would-block are failures of the call like any other
-ERRNOS_R = ["EIO", "EINTR", "EAGAIN", "EBADF", "ENOMEM", "0"]
+ERRNOS_R = ["EIO", "EINTR", "EAGAIN", "EWOULDBLOCK", "EBADF", "ENOMEM", "0"]
 ERRNOS_W = ["EIO", "EINTR", "EAGAIN", "ENOSPC", "EPIPE", "EDQUOT", "EFBIG", "0"]
 OPEN_ERR = ["0", "EACCES", "EINTR", "EMFILE", "EISDIR", "ENOMEM"]
 
@@ -157,7 +159,7 @@ def schedules(rng, total, n_extra, every_error_below=0, errnos=ERRNOS_R):
     if total <= every_error_below:
         for k in range(0, total + 2):
             # every call position x the plain I/O error, the interruption, one other errno
-            for e in ("EIO", "EINTR", rng.choice(errnos[2:])):
+            for e in ("EIO", "EINTR", "EAGAIN", rng.choice(errnos[3:])):
                 out.append((sched_str([1] * k + [err_item(e)]), "error-every"))
         out.append((sched_str([2] * (total // 2) + [err_item(rng.choice(errnos))]), "error-every"))
         out.append((sched_str([total] + ["E:EINTR"]), "error-at-eof"))
@@ -334,6 +336,26 @@ def gen(rng, tier):
     out += gen_descriptors(rng, tier, docs, [(t, fl, sers[(t, fl)]) for (t, fl, _) in trees if (t, fl) in sers])
     out += gen_small_scope(tier, sers)
     out += gen_fdnums(rng, tier, out)
+    out += gen_wouldblock(tier)
+    return out
+
+
+def gen_wouldblock(tier):
+    """a descriptor that has no data YET (a FIFO whose writer is late, a socket) answers EAGAIN /
+    EWOULDBLOCK in non-blocking mode and EINTR when a signal arrives: before any data and between
+    data these are failed read() calls like any other and must be reported as such — every schedule of
+    <= 3 (4) transfers over {1, 2, all, EAGAIN, EWOULDBLOCK, EINTR}, every read entry point"""
+    out = []
+    syms = [1, 2, 1000000, "E:EAGAIN", "E:EWOULDBLOCK", "E:EINTR"]
+    for sc in seqs(syms, 3 if tier == "quick" else 4):
+        if not any(isinstance(x, str) for x in sc):
+            continue
+        s_ = sched_str(sc)
+        for t in (b"[1]", b'{"a":true}\n', b"42"):
+            out.append(("fd R %s -1 %s" % (hx(t), s_), {"kind": "wouldblock/R"}))
+            out.append(("fd F R 1 %s %s" % (hx(t), s_), {"kind": "wouldblock/FR"}))
+        out.append(("fd P a=%s r/a/%s;r/a/-" % (hx(b"[1,2]\n"), s_), {"kind": "wouldblock/P"}))
+        out.append(("fd DR r %s 2 fd %s" % (hx(b"#\n[1]"), s_), {"kind": "wouldblock/DR"}))
     return out
 
 
@@ -932,11 +954,16 @@ def oracle(line, meta, impl):
     if "BADFD" in o:
         return ("bad-fd", "read/write/close called on a descriptor other than the one given/opened")
     other = [x for x in o if x.startswith("OTHER:")]
-    o = [x for x in o if not x.startswith("OTHER:")]
+    flags = [x for x in o if x.startswith("FLAGS:")]
+    o = [x for x in o if not x.startswith("OTHER:") and not x.startswith("FLAGS:")]
     impl = " ".join(o)
     if "DEVOVERFLOW" in o:
         return ("write-overrun", "more than twice the serialization was written")
     v = dispatch(t, o, impl)
+    if v is None and flags:
+        fl, _, mode = flags[0][6:].partition("/")
+        return ("open-flags", "json_util.c opened a file with flags 0x%s mode 0%s; the documented requests are O_RDONLY (reading) and "
+                "O_WRONLY|O_TRUNC|O_CREAT with mode 0644 (writing), nothing more and nothing less" % (fl, mode))
     if v is None and other:
         # the behaviour was right, but the descriptor is the caller's: nothing but read()/write()
         return ("foreign-descriptor-call", "json_util.c did more to the descriptor than read()/write() (and open()/close() of its own files): %s"
